@@ -94,6 +94,11 @@ def make_case(r):
         ind = img[:size]
         exp_types, value = ["pe_file"], ind
         dl, dr = r.choice([(b" ", b" "), (b"\x00", b"\x00"), (b"", b""), (b"DMZ ", b" MZ")])
+        if r.random() < 0.15:
+            # directly behind the cut-off head of another image (alone it is not a structurally valid file; with the bytes that
+            # follow it may become one whose span runs into this image - this image is still an embedded PE file of its own)
+            other, osize = r.choice(pegen.valid_images(r))
+            dl = other[: r.choice([0x40, 0x80, 0x100, 0x1C0, 0x1FF, 0x200])]
     if r.random() < 0.03:
         # far longer than any plausible fixed limit (MAX_PATH 260, 2 KiB URLs, 8191 byte command lines, 64 KiB)
         n = r.choice([40, 300, 1300, 6000])
